@@ -386,6 +386,7 @@ func (s *Server) publishDiagnostics(ctx context.Context, docURI protocol.Documen
 }
 
 func (s *Server) publishDiagnosticsVersion(ctx context.Context, docURI protocol.DocumentURI, content string, version uint64) {
+	defer verifStart(ctx, docURI, version)()
 	if s.client == nil {
 		return
 	}
